@@ -1,9 +1,12 @@
 (* PubThreadDefs.v — C16, threaded engine `pubt`: a publisher thread against subscriber threads, scheduled at lock
    granularity.  Model only; the proof that the property oracle accepts every threaded trace is in PubThreadProofs.v.
 
-   Threads: 0 runs the publisher program (publish / batch / close / ~publisher / kick / copy / leave); thread i+1 drives
+   Threads: 0 runs the publisher program A (publish / batch / close / ~publisher / kick / copy / leave); thread i+1 drives
    subscriber i in one of three styles: 0 blocking `bool(next())`, 1 a coroutine doing `co_await next()`, 2 polling
-   `next_ready()`.  Every acquisition of the queue mutex is a scheduling point: a schedule is a list of naturals, choice k
+   `next_ready()`; the last thread runs a second publisher program B against the same publisher.  A subscriber may be
+   RE-ENTRANT: after every value it receives it performs an action on the same publisher (publish / close / kick the next
+   subscriber / kick itself / destroy itself) — for a coroutine resumed inside publish() that action is nested in the
+   waker's wake-up loop.  Every acquisition of the queue mutex is a scheduling point: a schedule is a list of naturals, choice k
    picks the (k mod |enabled|)-th enabled thread (ascending tid), exactly as harness/ctl.h does with the real threads.
    A coroutine parked in co_await leaves its thread; it is resumed by the thread that wakes it (the publisher, inside
    publish()/close()/kick(), after the unlock) and its following locked steps run on that thread, nested, before the
@@ -13,38 +16,53 @@
 From Cocls Require Import Base PublisherDefs.
 Local Open Scope Z_scope.
 
-Inductive tag := TSetup (i : nat) | TPub (j : nat) | TSkip (j : nat) | TStep (code : Z) (s : nat).
+(* TPub k j / TSkip k j: op j of program k (0 = A, 1 = B); TAct i: the action of re-entrant subscriber i *)
+Inductive tag := TSetup (i : nat) | TPub (k j : nat) | TSkip (k j : nat) | TStep (code : Z) (s : nat) | TAct (i : nat).
 
 (* subscriber thread state.  pc: 0 idle, 1 after the first await_ready=false of a blocking call, 2 after await_ready=false
-   (next step: subscribe), 3 advanced (next step: await_resume), 4 parked, 5 done, 6 blocked thread woken (next: leave the wait) *)
-Record sthr := mkSt { st_mode : Z; st_style : Z; st_cnt : nat; st_pc : Z; st_aw : Z }.
+   (next step: subscribe), 3 advanced (next step: await_resume), 4 parked, 5 done, 6 blocked thread woken (next: leave the
+   wait), 7 a value was received (next step: the action), 8 awaiter taken out of the registration, resumption pending.  st_act: 0 none, 1 publish, 2 close, 3 kick the next subscriber,
+   4 kick itself, 5 destroy itself *)
+Record sthr := mkSt { st_mode : Z; st_style : Z; st_cnt : nat; st_pc : Z; st_aw : Z; st_act : Z }.
 
 (* items of a thread's work stack *)
 (* IWake w: awaiters the thread has still to resume (after the unlock), in order *)
-Inductive item := IPub | IRelock | ISub (i : nat) | IWake (w : list Z).
+(* IQ l: the thread runs coroutines under cocls's thread-local coro_queue; l = the coroutines made ready meanwhile (FIFO) *)
+Inductive item := IPub (k : nat) | IRelock | ISub (i : nat) | IWake (w : list Z) | IQ (l : list nat).
 
-Record tstate := mkTs { ts_pub : nat; ts_subs : list sthr; ts_stacks : list (list item) }.
+Record tstate := mkTs { ts_pa : nat; ts_pb : nat; ts_subs : list sthr; ts_stacks : list (list item) }.
 
-Definition sthr0 : sthr := mkSt 0 0 0 5 (-1).
+Definition sthr0 : sthr := mkSt 0 0 0 5 (-1) 0.
 Definition sget (l : list sthr) (i : nat) : sthr := nth i l sthr0.
 
-Definition op_of_tag (subs : list sthr) (prog : list op) (t : tag) : op :=
+(* sp = the subscriber table of the case (static: modes, styles, actions); pa / pb = the two publisher programs *)
+Definition act_op (sp : list sthr) (i : nat) : op :=
+  let a := st_act (sget sp i) in
+  if a =? 1 then OPub (9000 + Z.of_nat i) else if a =? 2 then OClose
+  else if a =? 3 then OKick (Nat.modulo (S i) (length sp)) else if a =? 4 then OKick i
+  else if a =? 5 then OLeave i else OBad.
+
+Definition prog_of (pa pb : list op) (k : nat) : list op := match k with O => pa | _ => pb end.
+
+Definition op_of_tag (sp : list sthr) (pa pb : list op) (t : tag) : op :=
   match t with
-  | TSetup i => OSubRecent i (st_mode (sget subs i))
-  | TPub j => nth j prog OBad
-  | TSkip _ => OBad
+  | TSetup i => OSubRecent i (st_mode (sget sp i))
+  | TPub k j => nth j (prog_of pa pb k) OBad
+  | TSkip _ _ => OBad
   | TStep c s => if c =? 5 then OReady s else if c =? 6 then OSuspend s else if c =? 7 then OGet s else OBad
+  | TAct i => act_op sp i
   end.
 
 (* which publisher-program ops are executed as they are; everything else is skipped (a rejected line).
    ~subscriber of a thread-driven subscriber only while its coroutine is parked (frame and subscriber destroyed together) *)
-Definition pub_tag (ts : tstate) (prog : list op) (j : nat) : tag :=
+Definition pub_tag (ts : tstate) (prog : list op) (k j : nat) : tag :=
   match nth j prog OBad with
-  | OPub _ | OBatch _ | OClose | ODestroyPub | OKick _ => TPub j
-  | OSubCopy s _ => if (length (ts_subs ts) <=? s)%nat then TPub j else TSkip j
-  | OLeave s => if (length (ts_subs ts) <=? s)%nat then TPub j
-                else if (st_style (sget (ts_subs ts) s) =? 1) && (st_pc (sget (ts_subs ts) s) =? 4) then TPub j else TSkip j
-  | _ => TSkip j
+  | OPub _ | OBatch _ | OClose | ODestroyPub | OKick _ => TPub k j
+  | OSubCopy s _ => if (length (ts_subs ts) <=? s)%nat then TPub k j else TSkip k j
+  | OLeave s => if (length (ts_subs ts) <=? s)%nat then TPub k j
+                else if (st_style (sget (ts_subs ts) s) =? 1) && (st_pc (sget (ts_subs ts) s) =? 4) then TPub k j
+                else TSkip k j
+  | _ => TSkip k j
   end.
 
 (* does the executed op end with push_lk's second lock acquisition? *)
@@ -58,46 +76,88 @@ Definition relocks (e : tst) (x : op) (o : obs) : bool :=
   end.
 
 Definition set_sthr (ts : tstate) (i : nat) (x : sthr) : tstate :=
-  mkTs (ts_pub ts) (set_nth (ts_subs ts) i x) (ts_stacks ts).
+  mkTs (ts_pa ts) (ts_pb ts) (set_nth (ts_subs ts) i x) (ts_stacks ts).
 Definition set_stack (ts : tstate) (t : nat) (st : list item) : tstate :=
-  mkTs (ts_pub ts) (ts_subs ts) (set_nth (ts_stacks ts) t st).
+  mkTs (ts_pa ts) (ts_pb ts) (ts_subs ts) (set_nth (ts_stacks ts) t st).
 Definition stack_of (ts : tstate) (t : nat) : list item := nth t (ts_stacks ts) [].
 
 (* a wake-up list: every parked subscriber whose awaiter is in it is woken; coroutines are returned (in list order) to
    be run by the waking thread *)
-Fixpoint find_aw (l : list sthr) (a : Z) (i : nat) : option nat :=
+Fixpoint find_aw (p : Z) (l : list sthr) (a : Z) (i : nat) : option nat :=
   match l with
   | [] => None
-  | x :: t => if (st_pc x =? 4) && (st_aw x =? a) then Some i else find_aw t a (S i)
+  | x :: t => if (st_pc x =? p) && (st_aw x =? a) then Some i else find_aw p t a (S i)
+  end.
+(* the critical section that produced wake-up list w removed those awaiters from the registrations: from now on their
+   subscribers are no longer "parked" (pc 8: resumption pending) although they have not been resumed yet *)
+Fixpoint mark_pending (subs : list sthr) (w : list Z) : list sthr :=
+  match w with
+  | [] => subs
+  | a :: t => match find_aw 4 subs a 0 with
+              | Some i => let x := sget subs i in
+                          mark_pending (set_nth subs i (mkSt (st_mode x) (st_style x) (st_cnt x) 8 (st_aw x) (st_act x))) t
+              | None => mark_pending subs t
+              end
   end.
 (* resuming the awaiters of a wake-up list is not a scheduling point, but resuming a coroutine runs it up to its next
-   lock acquisition, which is one: the blocked threads in front of the first coroutine become enabled at once, the
-   awaiters behind it are resumed only when that coroutine has parked again or finished *)
+   lock acquisition, which is one.  cocls resumes coroutines through the thread-local coro_queue:
+   - outside a coroutine (publisher program, blocking thread): the coroutine is run at once under a freshly installed
+     queue; the blocked threads in front of it in the list become enabled at once, the awaiters behind it are resumed
+     only when it has parked again or finished and the queue has been drained;
+   - inside a running coroutine (a re-entrant subscriber): resumed coroutines are only appended to the queue and run,
+     in FIFO order, when the running coroutine parks or finishes. *)
 Fixpoint wake_prefix (subs : list sthr) (w : list Z) : list sthr * option nat * list Z :=
   match w with
   | [] => (subs, None, [])
   | a :: t =>
-      match find_aw subs a 0 with
+      match find_aw 8 subs a 0 with
       | Some i => let x := sget subs i in
                   if st_style x =? 1
-                  then (set_nth subs i (mkSt (st_mode x) (st_style x) (st_cnt x) 3 (st_aw x)), Some i, t)
-                  else wake_prefix (set_nth subs i (mkSt (st_mode x) (st_style x) (st_cnt x) 6 (st_aw x))) t
+                  then (set_nth subs i (mkSt (st_mode x) (st_style x) (st_cnt x) 3 (st_aw x) (st_act x)), Some i, t)
+                  else wake_prefix (set_nth subs i (mkSt (st_mode x) (st_style x) (st_cnt x) 6 (st_aw x) (st_act x))) t
       | None => wake_prefix subs t
       end
   end.
-Fixpoint settle (subs : list sthr) (st : list item) : list sthr * list item :=
-  match st with
-  | IWake w :: rest =>
-      match wake_prefix subs w with
-      | (subs1, Some i, w1) => (subs1, ISub i :: match w1 with [] => rest | _ => IWake w1 :: rest end)
-      | (subs1, None, _) => settle subs1 rest
+Fixpoint wake_all (subs : list sthr) (w : list Z) : list sthr * list nat :=
+  match w with
+  | [] => (subs, [])
+  | a :: t =>
+      match find_aw 8 subs a 0 with
+      | Some i => let x := sget subs i in
+                  let coro := st_style x =? 1 in
+                  let r := wake_all (set_nth subs i (mkSt (st_mode x) (st_style x) (st_cnt x) (if coro then 3 else 6)
+                                                          (st_aw x) (st_act x))) t in
+                  (fst r, if coro then i :: snd r else snd r)
+      | None => wake_all subs t
       end
-  | _ => (subs, st)
   end.
+Fixpoint has_q (st : list item) : bool :=
+  match st with [] => false | IQ _ :: _ => true | _ :: t => has_q t end.
+Fixpoint enqueue (cs : list nat) (st : list item) : list item :=
+  match st with [] => [] | IQ l :: t => IQ (l ++ cs) :: t | x :: t => x :: enqueue cs t end.
 
-Definition with_pc (x : sthr) (p : Z) : sthr := mkSt (st_mode x) (st_style x) (st_cnt x) p (st_aw x).
+Fixpoint settle_f (fuel : nat) (subs : list sthr) (st : list item) : list sthr * list item :=
+  match fuel with
+  | O => (subs, st)
+  | S f =>
+      match st with
+      | IWake w :: rest =>
+          if has_q rest then let r := wake_all subs w in settle_f f (fst r) (enqueue (snd r) rest)
+          else match wake_prefix subs w with
+               | (subs1, Some i, w1) => (subs1, ISub i :: IQ [] :: match w1 with [] => rest | _ => IWake w1 :: rest end)
+               | (subs1, None, _) => settle_f f subs1 rest
+               end
+      | IQ [] :: rest => settle_f f subs rest
+      | IQ (i :: l) :: rest => (subs, ISub i :: IQ l :: rest)
+      | _ => (subs, st)
+      end
+  end.
+Definition settle (subs : list sthr) (st : list item) : list sthr * list item :=
+  settle_f (2 * length st + 4) subs st.
+
+Definition with_pc (x : sthr) (p : Z) : sthr := mkSt (st_mode x) (st_style x) (st_cnt x) p (st_aw x) (st_act x).
 Definition dec_cnt (x : sthr) : sthr :=
-  mkSt (st_mode x) (st_style x) (pred (st_cnt x)) (if (st_cnt x <=? 1)%nat then 5 else 0) (st_aw x).
+  mkSt (st_mode x) (st_style x) (pred (st_cnt x)) (if (st_cnt x <=? 1)%nat then 5 else 0) (st_aw x) (st_act x).
 
 (* the next locked step of subscriber thread state x (None: a silent scheduling point) *)
 Definition sub_code (x : sthr) : option Z :=
@@ -116,9 +176,10 @@ Definition sub_next (x : sthr) (o : obs) : sthr :=
     else dec_cnt x                                   (* polled: next_ready() returned false *)
   else if st_pc x =? 1 then (if yes then with_pc x 3 else with_pc x 2)
   else if st_pc x =? 2 then
-    (if yes then mkSt (st_mode x) (st_style x) (st_cnt x) 4 (o_c o) else with_pc x 3)
+    (if yes then mkSt (st_mode x) (st_style x) (st_cnt x) 4 (o_c o) (st_act x) else with_pc x 3)
   else (* pc 3: await_resume *)
-    if (st_style x =? 2) || yes then dec_cnt x else with_pc x 5.   (* end of stream ends a blocking / awaiting loop *)
+    if yes && negb (st_act x =? 0) then with_pc x 7                (* a re-entrant subscriber acts on the value *)
+    else if (st_style x =? 2) || yes then dec_cnt x else with_pc x 5.   (* end of stream ends a blocking / awaiting loop *)
 
 (* does the item stay on the stack of the thread that ran it? *)
 Definition stays (x : sthr) : bool :=
@@ -127,7 +188,7 @@ Definition stays (x : sthr) : bool :=
 Definition runnable (ts : tstate) (st : list item) : bool :=
   match st with
   | [] => false
-  | ISub i :: _ => negb (st_pc (sget (ts_subs ts) i) =? 4)
+  | ISub i :: _ => negb (st_pc (sget (ts_subs ts) i) =? 4) && negb (st_pc (sget (ts_subs ts) i) =? 8)
   | _ => true
   end.
 
@@ -144,84 +205,102 @@ Definition pick (ts : tstate) (k : Z) : option nat :=
   | en => Some (nth (Z.to_nat (Z.abs k mod zlen en)) en 0%nat)
   end.
 
-Definition pub_rest (ts : tstate) (prog : list op) (j : nat) : list item :=
-  if (S j <? length prog)%nat then [IPub] else [].
+Definition pub_rest (prog : list op) (k j : nat) : list item :=
+  if (S j <? length prog)%nat then [IPub k] else [].
 
 (* one scheduling step of thread t; returns the new states and the trace line, if the step is a locked step *)
-Definition tstep (prog : list op) (e : tst) (ts : tstate) (t : nat) : tst * tstate * option (tag * obs) :=
+Definition tstep (sp : list sthr) (pa pb : list op) (e : tst) (ts : tstate) (t : nat) : tst * tstate * option (tag * obs) :=
   match stack_of ts t with
   | [] => (e, ts, None)
-  | IRelock :: rest => (e, set_stack ts t rest, None)
+  | IRelock :: rest => let k := settle (ts_subs ts) rest in
+                       (e, mkTs (ts_pa ts) (ts_pb ts) (fst k) (set_nth (ts_stacks ts) t (snd k)), None)
   | IWake w :: rest => let k := settle (ts_subs ts) (IWake w :: rest) in   (* not reachable: stacks are settled *)
-                       (e, mkTs (ts_pub ts) (fst k) (set_nth (ts_stacks ts) t (snd k)), None)
-  | IPub :: rest =>
-      let j := ts_pub ts in
-      let tg := pub_tag ts prog j in
-      let x := op_of_tag (ts_subs ts) prog tg in
+                       (e, mkTs (ts_pa ts) (ts_pb ts) (fst k) (set_nth (ts_stacks ts) t (snd k)), None)
+  | IQ l :: rest => let k := settle (ts_subs ts) (IQ l :: rest) in         (* not reachable either *)
+                    (e, mkTs (ts_pa ts) (ts_pb ts) (fst k) (set_nth (ts_stacks ts) t (snd k)), None)
+  | IPub k :: rest =>
+      let prog := prog_of pa pb k in
+      let j := match k with O => ts_pa ts | _ => ts_pb ts end in
+      let tg := pub_tag ts prog k j in
+      let x := op_of_tag sp pa pb tg in
       let r := step e x in
       let subs0 := match tg, nth j prog OBad with
-                   | TPub _, OLeave s => if (s <? length (ts_subs ts))%nat
-                                         then set_nth (ts_subs ts) s (with_pc (sget (ts_subs ts) s) 5) else ts_subs ts
+                   | TPub _ _, OLeave s => if (s <? length (ts_subs ts))%nat
+                                           then set_nth (ts_subs ts) s (with_pc (sget (ts_subs ts) s) 5) else ts_subs ts
                    | _, _ => ts_subs ts
                    end in
-      let w := settle subs0 (IWake (o_wk (snd r)) :: (if relocks e x (snd r) then [IRelock] else [])
-                                                   ++ pub_rest ts prog j ++ rest) in
-      (fst r, mkTs (S j) (fst w) (set_nth (ts_stacks ts) t (snd w)), Some (tg, snd r))
+      let w := settle (mark_pending subs0 (o_wk (snd r)))
+                      (IWake (o_wk (snd r)) :: (if relocks e x (snd r) then [IRelock] else [])
+                                             ++ pub_rest prog k j ++ rest) in
+      (fst r, mkTs (match k with O => S j | _ => ts_pa ts end) (match k with O => ts_pb ts | _ => S j end)
+                   (fst w) (set_nth (ts_stacks ts) t (snd w)), Some (tg, snd r))
   | ISub i :: rest =>
       let x := sget (ts_subs ts) i in
+      if st_pc x =? 7 then
+        (* the action of a re-entrant subscriber: a publisher-side op run by whoever runs the subscriber *)
+        let ao := op_of_tag sp pa pb (TAct i) in
+        let r := step e ao in
+        let x' := match ao with OLeave _ => with_pc x 5 | _ => dec_cnt x end in
+        let w := settle (mark_pending (set_nth (ts_subs ts) i x') (o_wk (snd r)))
+                        (IWake (o_wk (snd r)) :: (if relocks e ao (snd r) then [IRelock] else [])
+                                               ++ (if stays x' then ISub i :: rest else rest)) in
+        (fst r, mkTs (ts_pa ts) (ts_pb ts) (fst w) (set_nth (ts_stacks ts) t (snd w)), Some (TAct i, snd r))
+      else
       match sub_code x with
       | None => (e, set_sthr ts i (with_pc x 3), None)          (* pc 6: the blocked thread leaves its wait *)
       | Some c =>
-          let r := step e (op_of_tag (ts_subs ts) prog (TStep c i)) in
+          let r := step e (op_of_tag sp pa pb (TStep c i)) in
           let x' := sub_next x (snd r) in
           let w := if stays x' then (set_nth (ts_subs ts) i x', ISub i :: rest)
                    else settle (set_nth (ts_subs ts) i x') rest in
-          (fst r, mkTs (ts_pub ts) (fst w) (set_nth (ts_stacks ts) t (snd w)), Some (TStep c i, snd r))
+          (fst r, mkTs (ts_pa ts) (ts_pb ts) (fst w) (set_nth (ts_stacks ts) t (snd w)), Some (TStep c i, snd r))
       end
   end.
 
-Fixpoint trun (fuel : nat) (prog : list op) (e : tst) (ts : tstate) (sched : list Z) : list (nat * tag * obs) :=
+Fixpoint trun (fuel : nat) (sp : list sthr) (pa pb : list op) (e : tst) (ts : tstate) (sched : list Z)
+  : list (nat * tag * obs) :=
   match fuel with
   | O => []
   | S f =>
       match pick ts (hd 0 sched) with
       | None => []
       | Some t =>
-          let r := tstep prog e ts t in
+          let r := tstep sp pa pb e ts t in
           match snd r with
-          | Some (tg, o) => (t, tg, o) :: trun f prog (fst (fst r)) (snd (fst r)) (tl sched)
-          | None => trun f prog (fst (fst r)) (snd (fst r)) (tl sched)
+          | Some (tg, o) => (t, tg, o) :: trun f sp pa pb (fst (fst r)) (snd (fst r)) (tl sched)
+          | None => trun f sp pa pb (fst (fst r)) (snd (fst r)) (tl sched)
           end
       end
   end.
 
 (* setup: the subscribers are constructed (most recent position) before the threads start *)
-Fixpoint setup (subs : list sthr) (e : tst) (i : nat) (n : nat) : list (nat * tag * obs) * tst :=
+Fixpoint setup (sp : list sthr) (e : tst) (i : nat) (n : nat) : list (nat * tag * obs) * tst :=
   match n with
   | O => ([], e)
-  | S m => let r := step e (op_of_tag subs [] (TSetup i)) in
-           let k := setup subs (fst r) (S i) m in
+  | S m => let r := step e (op_of_tag sp [] [] (TSetup i)) in
+           let k := setup sp (fst r) (S i) m in
            ((0%nat, TSetup i, snd r) :: fst k, snd k)
   end.
 
 (* ---------- wire format ----------
-   case:  [min max] / [100 mode style count ...] / publisher program, one op per line (PublisherDefs.decode) / [102 k1 k2 ...]
-   trace: first line as in engine pub; then [tid code arg st a b c wk...] with code 201 setup, 200 program op, 202 skipped
-          program op, 5/6/7 locked step of subscriber arg *)
+   case:  [min max] / [100 mode style count act ...] / publisher programs, one op per line (PublisherDefs.decode; a line
+          starting with 103 belongs to program B) / [102 k1 k2 ...]
+   trace: first line as in engine pub; then [tid code arg st a b c wk...] with code 201 setup, 200 / 203 op of program A / B,
+          202 / 204 skipped op of program A / B, 205 action of subscriber arg, 5/6/7 locked step of subscriber arg *)
 Fixpoint parse_subs (l : list Z) : option (list sthr) :=
   match l with
   | [] => Some []
-  | m :: s :: c :: t =>
-      if valid_mode m && (0 <=? s) && (s <=? 2) && (0 <=? c) && (c <? 1000)
+  | m :: s :: c :: a :: t =>
+      if valid_mode m && (0 <=? s) && (s <=? 2) && (0 <=? c) && (c <? 1000) && (0 <=? a) && (a <=? 5)
       then match parse_subs t with
-           | Some r => Some (mkSt m s (Z.to_nat c) (if c =? 0 then 5 else 0) (-1) :: r)
+           | Some r => Some (mkSt m s (Z.to_nat c) (if c =? 0 then 5 else 0) (-1) a :: r)
            | None => None
            end
       else None
   | _ => None
   end.
 
-Record tcase := mkTc { tc_mn : Z; tc_mx : Z; tc_subs : list sthr; tc_prog : list op; tc_sched : list Z }.
+Record tcase := mkTc { tc_mn : Z; tc_mx : Z; tc_subs : list sthr; tc_pa : list op; tc_pb : list op; tc_sched : list Z }.
 
 Fixpoint split_sched (l : list (list Z)) : option (list (list Z) * list Z) :=
   match l with
@@ -230,34 +309,42 @@ Fixpoint split_sched (l : list (list Z)) : option (list (list Z) * list Z) :=
   | x :: t => match split_sched t with Some (p, s) => Some (x :: p, s) | None => None end
   end.
 
+Definition is_b (l : list Z) : bool := match l with 103 :: _ => true | _ => false end.
+Definition prog_a (p : list (list Z)) : list op := map decode (filter (fun l => negb (is_b l)) p).
+Definition prog_b (p : list (list Z)) : list op := map (fun l => decode (tl l)) (filter is_b p).
+
 Definition parse_case (ops : list (list Z)) : option tcase :=
   match ops with
   | c :: (100 :: sl) :: rest =>
       match cfg_of c, parse_subs sl, split_sched rest with
       | Some (mn, mx), Some subs, Some (p, s) =>
-          if (length subs <=? 3)%nat then Some (mkTc mn mx subs (map decode p) s) else None
+          if (length subs <=? 3)%nat then Some (mkTc mn mx subs (prog_a p) (prog_b p) s) else None
       | _, _, _ => None
       end
   | _ => None
   end.
 
-Definition init_ts (subs : list sthr) (prog : list op) : tstate :=
-  mkTs 0 subs ((match prog with [] => [] | _ => [IPub] end)
-               :: map (fun i => if st_pc (sget subs i) =? 5 then [] else [ISub i]) (seq 0 (length subs))).
+Definition init_ts (subs : list sthr) (pa pb : list op) : tstate :=
+  mkTs 0 0 subs (((match pa with [] => [] | _ => [IPub 0] end)
+                  :: map (fun i => if st_pc (sget subs i) =? 5 then []
+                                   else if st_style (sget subs i) =? 1 then [ISub i; IQ []] else [ISub i])
+                         (seq 0 (length subs)))
+                 ++ [match pb with [] => [] | _ => [IPub 1] end]).
 
 Definition fuel_of (c : tcase) : nat :=
-  (2 * length (tc_prog c) + 6 * fold_right (fun x a => st_cnt x + a) 0 (tc_subs c) + 16)%nat.
+  (2 * length (tc_pa c) + 2 * length (tc_pb c) + 8 * fold_right (fun x a => st_cnt x + a) 0 (tc_subs c) + 16)%nat.
 
 Definition thr_trace (c : tcase) : list (nat * tag * obs) :=
   let s := setup (tc_subs c) (tst0 (tc_mn c) (tc_mx c)) 0 (length (tc_subs c)) in
-  fst s ++ trun (fuel_of c) (tc_prog c) (snd s) (init_ts (tc_subs c) (tc_prog c)) (tc_sched c).
+  fst s ++ trun (fuel_of c) (tc_subs c) (tc_pa c) (tc_pb c) (snd s) (init_ts (tc_subs c) (tc_pa c) (tc_pb c)) (tc_sched c).
 
 Definition enc_tag (t : tag) : list Z :=
   match t with
   | TSetup i => [201; Z.of_nat i]
-  | TPub j => [200; Z.of_nat j]
-  | TSkip j => [202; Z.of_nat j]
+  | TPub k j => [match k with O => 200 | _ => 203 end; Z.of_nat j]
+  | TSkip k j => [match k with O => 202 | _ => 204 end; Z.of_nat j]
   | TStep c s => [c; Z.of_nat s]
+  | TAct i => [205; Z.of_nat i]
   end.
 Definition enc_line (x : nat * tag * obs) : list Z :=
   Z.of_nat (fst (fst x)) :: enc_tag (snd (fst x)) ++ encode_obs (snd x).
@@ -271,16 +358,18 @@ Definition pubt_run (ops : list (list Z)) : list (list Z) :=
 (* the oracle: the reference monitor of PublisherDefs run over the locked steps in the order they happened *)
 Definition dec_tag (code arg : Z) : option tag :=
   if arg <? 0 then None else
-  if code =? 201 then Some (TSetup (Z.to_nat arg)) else if code =? 200 then Some (TPub (Z.to_nat arg))
-  else if code =? 202 then Some (TSkip (Z.to_nat arg))
+  if code =? 201 then Some (TSetup (Z.to_nat arg)) else if code =? 200 then Some (TPub 0 (Z.to_nat arg))
+  else if code =? 203 then Some (TPub 1 (Z.to_nat arg))
+  else if code =? 202 then Some (TSkip 0 (Z.to_nat arg)) else if code =? 204 then Some (TSkip 1 (Z.to_nat arg))
+  else if code =? 205 then Some (TAct (Z.to_nat arg))
   else if (code =? 5) || (code =? 6) || (code =? 7) then Some (TStep code (Z.to_nat arg)) else None.
 
-Fixpoint mon_lines (subs : list sthr) (prog : list op) (m : mon) (l : list (list Z)) : mon :=
+Fixpoint mon_lines (sp : list sthr) (pa pb : list op) (m : mon) (l : list (list Z)) : mon :=
   match l with
   | [] => m
   | (_ :: code :: arg :: o) :: t =>
       match dec_tag code arg with
-      | Some tg => mon_lines subs prog (mon_step m (op_of_tag subs prog tg) (dec_obs o)) t
+      | Some tg => mon_lines sp pa pb (mon_step m (op_of_tag sp pa pb tg) (dec_obs o)) t
       | None => short m
       end
   | _ :: _ => short m
@@ -289,7 +378,7 @@ Fixpoint mon_lines (subs : list sthr) (prog : list op) (m : mon) (l : list (list
 Definition pubt_oracle (ops obsl : list (list Z)) : bool :=
   match parse_case ops with
   | Some c => match obsl with
-              | _ :: t => good_b (mon_lines (tc_subs c) (tc_prog c) (mon0 (tc_mn c) (tc_mx c)) t)
+              | _ :: t => good_b (mon_lines (tc_subs c) (tc_pa c) (tc_pb c) (mon0 (tc_mn c) (tc_mx c)) t)
               | [] => false
               end
   | None => match obsl with [_] => true | _ => false end
